@@ -731,3 +731,46 @@ Lemma refuted_F20m : guard_F20k [w_foo_bar; w_FooBar] = true /\ guard_F20m [w_fo
 Proof. repeat split; vm_compute; reflexivity. Qed.
 Lemma schemas_guard_nonvacuous : guard_F20k [w_foo_bar; w_none; w_1st] = true /\ guard_F20m [w_foo_bar; w_none; w_1st] = true.
 Proof. split; vm_compute; reflexivity. Qed.
+
+(* ================================================================= whole pipeline for referenced component schemas *)
+Lemma refs_go_extends : forall refs keys i, exists ext, refs_go keys i refs = keys ++ ext.
+Proof.
+  induction refs as [|r rest IH]; intros keys i; [exists []; simpl; rewrite app_nil_r; reflexivity|].
+  cbn [refs_go]. destruct (mem_str r (map fst keys)).
+  - apply IH.
+  - destruct (IH (keys ++ [(if mem_str (class_name (class_name r)) (map fst keys) then r else class_name (class_name r), i)]) (S i))
+      as [ext E]. rewrite E. rewrite <- app_assoc. eexists. reflexivity.
+Qed.
+
+(* whenever generation succeeds the model classes and the module stems written are pairwise distinct *)
+Theorem pipeline_models_nodup : forall raw out, pipeline_models raw = Some out ->
+  NoDup (map (fun x => snd (fst x)) out) /\ NoDup (map (fun x => fst (fst x)) out).
+Proof.
+  intros raw out H. unfold pipeline_models in H. destruct (build_keys raw) as [keys|]; [|discriminate].
+  inversion H; subst out; clear H. rewrite !map_map. cbn [fst snd].
+  set (stored := map _ (refs_go keys 0 raw)).
+  destruct (dedup_models_nodup stored) as [H1 [H2 _]]. split; assumption.
+Qed.
+
+(* F20k / F20m excluded: generation succeeds and every component schema's content is in some generated model *)
+Theorem pipeline_models_none_dropped : forall raw, guard_F20k raw = true -> guard_F20m raw = true ->
+  exists out, pipeline_models raw = Some out /\ forall i, (i < length raw)%nat -> In i (map snd out).
+Proof.
+  intros raw Gk Gm. unfold pipeline_models. rewrite (build_keys_partial raw Gk Gm).
+  set (keys := combine (map class_name raw) (seq 0 (length raw))).
+  destruct (refs_go_extends raw keys 0) as [ext E]. rewrite E.
+  set (keys' := keys ++ ext).
+  set (stored := map (fun ki => class_name (nth (snd ki) raw [])) keys').
+  eexists. split; [reflexivity|]. intros i Hi.
+  destruct (dedup_models_nodup stored) as [_ [_ [_ Hperm]]].
+  assert (Hlen : length stored = length keys') by (subst stored; apply map_length).
+  assert (Hk : length keys = length raw) by (subst keys; rewrite combine_length, map_length, seq_length; apply Nat.min_id).
+  assert (Hpos : (i < length keys')%nat) by (subst keys'; rewrite app_length; lia).
+  assert (Hin : In i (map fst (dedup_models stored))).
+  { apply (Permutation_in _ (Permutation_sym Hperm)). apply in_seq. lia. }
+  apply in_map_iff in Hin. destruct Hin as [x [Hx Hxin]].
+  rewrite map_map. apply in_map_iff. exists x. split; [|exact Hxin]. cbn [snd]. rewrite Hx.
+  subst keys'. rewrite app_nth1 by lia. subst keys.
+  rewrite combine_nth by (rewrite map_length, seq_length; reflexivity). cbn [snd].
+  rewrite seq_nth by exact Hi. reflexivity.
+Qed.
